@@ -328,7 +328,12 @@ func c03Ext(c *Ctx, tailA, tailB []byte) {
 		}
 		var prev string
 		for i, tail := range [][]byte{tailA[:1], tailB[:1], tailA, tailB} {
-			a2 := c.Do(base+" "+Hx(tail), true)
+			var a2 string
+			if kind == "66" { // the model of 0x66 has the tail as an input
+				a2 = c.Do(base+" "+Hx(tail), true)
+			} else {
+				a2 = RunOp(base + " " + Hx(tail))
+			}
 			if a2 == "panic" && ans != "panic" {
 				c.Violate(Violation{Signature: sig("C03/ext-panic-" + kind), What: "extension handler panicked", Input: base + " " + Hx(tail),
 					Observed: a2, Required: ans})
@@ -336,7 +341,7 @@ func c03Ext(c *Ctx, tailA, tailB []byte) {
 				c.Violate(Violation{Signature: sig("C03/ext-tail-" + kind), What: "the outcome depends on bytes behind the content slice",
 					Input: base + " " + Hx(tail), Observed: a2, Required: ans + "   (answer with exact capacity)"})
 			}
-			if known && i > 0 && prev != "" && a2 != prev && i != 2 {
+			if known && i == 1 && a2 != prev {
 				// 0x66 behind different tails: the decoded battery level differs (locality broken, known finding)
 				c.Violate(Violation{Signature: "C03/ext66-overread", What: "0x66 reads its last entry one byte beyond the content",
 					Input: base + " " + Hx(tail), Observed: a2, Required: prev + "   (answer behind another tail)"})
@@ -386,6 +391,19 @@ func c03Ext(c *Ctx, tailA, tailB []byte) {
 					one(k.name, d, k.id, content, "len")
 					if n == k.ok || n == k.ok+1 || n == k.ok-1 {
 						one(k.name, d, k.id^1, content, "other-id")
+					}
+					if n == k.ok && f < 0 { // more field fillings at the accepted length
+						for x := 0; x < 6; x++ {
+							c2 := make([]byte, n)
+							rng.Read(c2)
+							if k.name == "66" {
+								c2[40] = 1
+							}
+							if x%2 == 0 { // terminal id with zero bytes on both sides (bytes.Trim)
+								copy(c2[n-16:], []byte{0, 0, 0x41, 0, 0x42, 0, 0})
+							}
+							one(k.name, d, k.id, c2, "accepted")
+						}
 					}
 				}
 			}
